@@ -6,6 +6,8 @@ var verifHarnesses = map[string]func(){
 	"HarnessSmoke2": HarnessSmoke2,
 	"HarnessC01a":   HarnessC01a,
 	"HarnessC04a":   HarnessC04a,
+	"HarnessC06a":   HarnessC06a,
+	"HarnessC07a":   HarnessC07a,
 	"HarnessC02a":   HarnessC02a,
 	"HarnessC05a":   HarnessC05a,
 	"HarnessC08a":   HarnessC08a,
